@@ -1,3 +1,4 @@
+(* C12 - small facts about cleanup; the refinement proof is in CallbackLists/Inv/Ops/Destroy/Sim/Main/Fuel/Trace.v *)
 From Coq Require Import List Arith Bool Lia.
 From Callback Require Import CallbackSpec CallbackModel.
 Import ListNotations.
